@@ -1,6 +1,7 @@
 import QmiModel.Lemmas.C08Steps
 import QmiModel.Lemmas.C07Unsub
 import QmiModel.Lemmas.C08Quiet
+import QmiModel.Lemmas.C08Live
 /-!
 # C08 — subscription state stays consistent through removal and disconnects
 
@@ -330,22 +331,50 @@ theorem sent_request_is_registered {s s1 : State} {c : Ctx} {d : Peer} {id : Req
   obtain ⟨rfl, -⟩ := hs
   cases hd : d.isName <;> (simp only [upd, if_true]; split) <;> simp [Conn.half, Conn.setHalf]
 
-/-- **subscribe terminates — partial** (missing: the carrier invariant "every outstanding request is in exactly one
-of: a pending send of its thread, the event-loop queue, the connection (and then registered in `pend`), the peer's
-handler, the reply's way back" together with its rank argument).  What is proved: each of the three kinds of answer
-named by the property releases the waiting call. -/
-theorem subscribe_terminates_partial :
-    (∀ (s : State) (th th' : Th) (id pid : ReqId) (ok : Bool) (po : PObj) (rest rest' : List MOp),
-        th'.ctx = th.ctx → (s.ctx th.ctx).byId id = some pid → (s.ctx th.ctx).pobj pid = some po → po.sub = true →
-        ∃ s' o, microStep s th 0 0 (.handleReply id ok) rest = some (s', o) ∧
-          (microStep s' th' 0 0 (.wait pid) rest').isSome = true) ∧
-    (∀ id ob sg b, onSendFail (.subReq id ob sg b) = [.handleReply id false]) ∧
-    (∀ (s s' : State) (th : Th) (ch ch2 : Nat) (cn : ConnId) (cli : Bool) (rest : List MOp) (o : Out),
-        microStep s th ch ch2 (.closeConn cn cli) rest = some (s', o) →
-        ∀ id ∈ ((s.conn cn).half cli).pend, MOp.handleReply id false ∈ s'.prog th) := by
-  refine ⟨?_, fun _ _ _ _ => rfl, fun s s' th ch ch2 cn cli rest o hs => closing_answers_registered_requests hs⟩
-  intro s th th' id pid ok po rest rest' hc hid hpo hsub
-  obtain ⟨s', o, h1, -, h3⟩ := reply_releases_waiters (ok := ok) (rest := rest) (rest' := rest') hc hid hpo hsub
-  exact ⟨s', o, h1, h3⟩
+/-! ### the carrier invariant and the "stuck ⇒ nobody waits" argument -/
+
+/-- **no request is ever lost inside its own context** (carrier invariant, local layer, full strength): in every
+reachable state every outstanding request of a live context is carried by a pending operation of one of its threads
+(the send that is about to happen, or the reply / error reply about to be handled), by a callback in its event-loop
+queue, or by the pending-request table of one of its connection ends (`_pending_requests`, from which
+`_clear_pending_requests` answers it when the connection goes down). -/
+theorem no_request_is_lost {s : State} (h : Reach s) {c : Ctx} {id : ReqId}
+    (hal : (s.ctx c).alive = true) (hid : (s.ctx c).byId id ≠ none) : Carrier s c id :=
+  carrierInv_reach h c id hal hid
+
+/-- **only the two waits can block**: the head operation of every thread other than `pending_request.wait()` and the
+`future.wait()` of `disconnect_from_peer` is enabled in every reachable state (for a suitable iteration order); in
+particular a reply or error reply is always processed, and a lock section never deadlocks in the model. -/
+theorem only_waits_block {s : State} (h : Reach s) {th : Th} {op : MOp} {rest : List MOp}
+    (hp : s.prog th = op :: rest) (hw : op.isWait = false) :
+    ∃ ch ch2, (microStep s th ch ch2 op rest).isSome = true :=
+  micro_enabled h hp hw
+
+/-- a waiting `subscribe` call is waiting for something: its pending object exists, and is completed (then the call
+continues) or still registered under its current request id (then `no_request_is_lost` applies to that request) -/
+theorem waiting_call_has_outstanding_request {s : State} (h : Reach s) {th : Th} {pid : ReqId} (hm : .wait pid ∈ s.prog th) :
+    ∃ po, (s.ctx th.ctx).pobj pid = some po ∧ (po.done ≠ none ∨ (s.ctx th.ctx).byId po.cur = some pid) := by
+  have hw := waitInv_reach h th pid hm
+  have hpk := pendInv_reach h th.ctx
+  cases hpo : (s.ctx th.ctx).pobj pid with
+  | none => exact absurd hpo hw.ex
+  | some po =>
+    refine ⟨po, rfl, ?_⟩
+    rcases (hw.live po hpo).2 with h1 | h1
+    · exact Or.inl h1
+    · exact Or.inr (hpk.byKey_cur _ pid po h1 hpo)
+
+/-- **subscribe terminates — partial.**  If no internal action is enabled (`Stuck`: no thread can continue, no socket
+thread has a callback, a message or an end-of-stream to process), then no live context has an outstanding request and
+no thread of a live context is inside a `subscribe` / `unsubscribe` call.  Missing hypothesis, spelled out as
+`NetLive`: a request registered on a connection end (`_pending_requests`) always has an enabled internal action — its
+request message in the peer's inbox, the peer's handler, the reply in the peer's queue or in our inbox, or the
+end-of-stream / teardown of the connection (the peer-side half of the carrier invariant).  Termination of the internal
+activity itself (a measure decreasing along internal actions) is not mechanised either; on the implementation both
+are observed as "the deterministic scheduler never reports a deadlock" (oracle clause `blocks-forever`). -/
+theorem subscribe_terminates_partial {s : State} (h : Reach s) (hst : Stuck s) (hnet : NetLive s) :
+    (∀ c id, (s.ctx c).alive = true → (s.ctx c).byId id = none) ∧
+    (∀ th, (s.ctx th.ctx).alive = true → s.prog th = [] ∨ ∃ rest, s.prog th = .waitFut :: rest) :=
+  stuck_implies_answered h hst hnet
 
 end QmiModel.PubSub
